@@ -887,3 +887,586 @@ pub fn gen_program(rng: &mut Rng, cfg: Cfg) -> (String, BTreeMap<&'static str, u
     let src = g.program();
     (src, g.feats)
 }
+
+// ------------------------------------------------------------------------------------------
+// C08: closure-centred programs.  Every capture set (params, lets, pattern variables, outer
+// closure params, Ref cells mutated before and after creation), nesting up to `nest`, and one
+// flow of a function value per flag.  Flows whose emitted Go is known to be ill-typed (C02's
+// findings) are only produced when their flag is set, so they cannot mask the main stream.
+
+pub mod flow {
+    // flows the pass rewrites (main stream)
+    pub const ALIAS: u32 = 1 << 0; //            let g = f
+    pub const TUPLE: u32 = 1 << 1; //            let (h, n) = (f, 3)
+    pub const RETURN_EARLIER: u32 = 1 << 2; //   fn mk(..) -> (int32) -> int32 declared before its caller
+    pub const STRUCT_OWN: u32 = 1 << 3; //       one struct type per stored closure
+    pub const TOPFN: u32 = 1 << 4; //            top-level function used as a value
+    pub const TUPLE_RETURN: u32 = 1 << 5; //     fn returning a tuple of closures (corpus 038)
+    pub const MAIN_STREAM: u32 = ALIAS | TUPLE | RETURN_EARLIER | STRUCT_OWN | TOPFN | TUPLE_RETURN;
+    // flows outside the rewriting (one per program, separate stream)
+    pub const ARGUMENT: u32 = 1 << 8; //         apply(f, 1), apply(|x| .., 1)
+    pub const BRANCH_IF: u32 = 1 << 9; //        let h = if c { f } else { g }
+    pub const BRANCH_MATCH: u32 = 1 << 10;
+    pub const ARRAY: u32 = 1 << 11; //           [f, g]
+    pub const RETURN_LATER: u32 = 1 << 12; //    callee declared after the caller
+    pub const STRUCT_SHARED: u32 = 1 << 13; //   two closures stored in the same struct type
+    pub const CURRIED: u32 = 1 << 14; //         |a| |b| a + b
+    pub const REFCELL: u32 = 1 << 15; //         ref(f)
+    pub const CLOSURE_PARAM: u32 = 1 << 16; //   |h: (int32) -> int32, x: int32| h(x)
+    pub const MIXED_TOP: u32 = 1 << 17; //       if c { topfn } else { closure }
+    pub const RETURN_BRANCH: u32 = 1 << 18; //   fn returning if c { clo1 } else { clo2 }
+    pub const GO_STMT: u32 = 1 << 19; //         go closure
+    pub const OTHER: [(u32, &str); 12] = [
+        (ARGUMENT, "argument"),
+        (BRANCH_IF, "branch-if"),
+        (BRANCH_MATCH, "branch-match"),
+        (ARRAY, "array"),
+        (RETURN_LATER, "return-later"),
+        (STRUCT_SHARED, "struct-shared"),
+        (CURRIED, "curried"),
+        (REFCELL, "refcell"),
+        (CLOSURE_PARAM, "closure-param"),
+        (MIXED_TOP, "mixed-top"),
+        (RETURN_BRANCH, "return-branch"),
+        (GO_STMT, "go"),
+    ];
+}
+
+#[derive(Clone, Copy, Debug)]
+pub struct CloCfg {
+    pub flows: u32,
+    /// closure nesting depth (≤ 4)
+    pub nest: usize,
+    /// statements per block
+    pub stmts: usize,
+}
+
+#[derive(Clone, PartialEq, Debug)]
+enum CT {
+    I,
+    R,
+    /// function value of n int32 parameters returning int32
+    F(usize),
+}
+
+#[derive(Clone, Debug)]
+struct CV {
+    name: String,
+    ty: CT,
+}
+
+pub struct CloGen<'a> {
+    rng: &'a mut Rng,
+    cfg: CloCfg,
+    uid: usize,
+    /// declarations placed before `main`
+    before: String,
+    /// declarations placed after `main`
+    after: String,
+    decls: String,
+    pub feats: BTreeMap<&'static str, usize>,
+}
+
+impl<'a> CloGen<'a> {
+    fn feat(&mut self, f: &'static str) {
+        *self.feats.entry(f).or_default() += 1;
+    }
+    fn on(&self, f: u32) -> bool {
+        self.cfg.flows & f != 0
+    }
+    fn fresh(&mut self, p: &str) -> String {
+        self.uid += 1;
+        format!("{}{}", p, self.uid)
+    }
+    fn fty(n: usize) -> String {
+        format!("({}) -> int32", vec!["int32"; n].join(", "))
+    }
+    fn vars<'s>(sc: &'s [CV], t: &CT) -> Vec<&'s CV> {
+        sc.iter().filter(|v| &v.ty == t).collect()
+    }
+    fn fvars(sc: &[CV]) -> Vec<&CV> {
+        sc.iter().filter(|v| matches!(v.ty, CT::F(_))).collect()
+    }
+
+    fn int_expr(&mut self, sc: &[CV], d: usize) -> String {
+        let ints = Self::vars(sc, &CT::I);
+        let refs = Self::vars(sc, &CT::R);
+        let fs = Self::fvars(sc);
+        if d == 0 {
+            return match self.rng.below(4) {
+                0 if !ints.is_empty() => self.rng.pick(&ints).name.clone(),
+                1 if !refs.is_empty() => format!("ref_get({})", self.rng.pick(&refs).name),
+                2 if !ints.is_empty() => self.rng.pick(&ints).name.clone(),
+                _ => format!("{}", self.rng.below(10)),
+            };
+        }
+        match self.rng.below(9) {
+            0 | 1 if !fs.is_empty() => {
+                self.feat("call-through-variable");
+                let f = (*self.rng.pick(&fs)).clone();
+                let CT::F(n) = f.ty else { unreachable!() };
+                let args: Vec<String> = (0..n).map(|_| self.int_expr(sc, d - 1)).collect();
+                format!("{}({})", f.name, args.join(", "))
+            }
+            2 | 3 => {
+                let a = self.int_expr(sc, d - 1);
+                let b = self.int_expr(sc, d - 1);
+                format!("({} {} {})", a, ["+", "*", "-"][self.rng.below(3)], b)
+            }
+            4 => {
+                let a = self.int_expr(sc, d - 1);
+                let b = self.int_expr(sc, d - 1);
+                let t = self.int_expr(sc, d - 1);
+                let e = self.int_expr(sc, d - 1);
+                format!("(if {} < {} {{ {} }} else {{ {} }})", a, b, t, e)
+            }
+            _ => self.int_expr(sc, 0),
+        }
+    }
+
+    /// `|p..| body`; the body may be a block with its own statements (nested closures, mutation)
+    fn closure_lit(&mut self, sc: &[CV], n: usize, nest: usize) -> String {
+        let mut inner: Vec<CV> = sc.to_vec();
+        let mut ps = Vec::new();
+        for _ in 0..n {
+            let p = self.fresh("a");
+            ps.push(format!("{}: int32", p));
+            inner.push(CV { name: p, ty: CT::I });
+        }
+        self.feat(match n {
+            0 => "closure-0-params",
+            1 => "closure-1-param",
+            _ => "closure-2-params",
+        });
+        let body = if nest > 0 && self.rng.chance(2, 3) {
+            let mut s = String::from("{ ");
+            let k = 1 + self.rng.below(self.cfg.stmts.max(1));
+            self.stmts(&mut inner, nest - 1, k, &mut s, false);
+            let e = self.int_expr(&inner, 2);
+            write!(s, "{} }}", e).unwrap();
+            s
+        } else {
+            self.int_expr(&inner, 2)
+        };
+        format!("|{}| {}", ps.join(", "), body)
+    }
+
+    fn print(&mut self, e: &str, out: &mut String) {
+        write!(out, "let _ = string_println(int32_to_string({})); ", e).unwrap();
+    }
+
+    fn call_of(&mut self, f: &str, n: usize, sc: &[CV]) -> String {
+        let args: Vec<String> = (0..n).map(|_| self.int_expr(sc, 1)).collect();
+        format!("{}({})", f, args.join(", "))
+    }
+
+    /// a function value expression of arity 1 that is a variable in scope, else a fresh closure
+    fn some_f1(&mut self, sc: &mut Vec<CV>, nest: usize, out: &mut String) -> String {
+        let c = Self::vars(sc, &CT::F(1));
+        if !c.is_empty() && self.rng.chance(1, 2) {
+            return self.rng.pick(&c).name.clone();
+        }
+        let f = self.fresh("f");
+        let lit = self.closure_lit(sc, 1, nest.min(1));
+        write!(out, "let {} = {}; ", f, lit).unwrap();
+        sc.push(CV { name: f.clone(), ty: CT::F(1) });
+        f
+    }
+
+    fn stmts(&mut self, sc: &mut Vec<CV>, nest: usize, n: usize, out: &mut String, top: bool) {
+        for _ in 0..n {
+            self.stmt(sc, nest, out, top);
+        }
+    }
+
+    fn stmt(&mut self, sc: &mut Vec<CV>, nest: usize, out: &mut String, top: bool) {
+        let k = self.rng.below(16);
+        match k {
+            0 => {
+                self.feat("let-int");
+                let e = self.int_expr(sc, 2);
+                let x = self.fresh("x");
+                write!(out, "let {} = {}; ", x, e).unwrap();
+                sc.push(CV { name: x, ty: CT::I });
+            }
+            1 => {
+                let ints = Self::vars(sc, &CT::I);
+                if !ints.is_empty() {
+                    let v = self.rng.pick(&ints).name.clone();
+                    // rebinding after a closure may have captured the old value
+                    self.feat("shadow-after-capture");
+                    let e = self.int_expr(sc, 1);
+                    write!(out, "let {} = ({} + {}); ", v, v, e).unwrap();
+                }
+            }
+            2 => {
+                self.feat("let-ref");
+                let e = self.int_expr(sc, 1);
+                let r = self.fresh("r");
+                write!(out, "let {} = ref({}); ", r, e).unwrap();
+                sc.push(CV { name: r, ty: CT::R });
+            }
+            3 | 4 => {
+                let refs = Self::vars(sc, &CT::R);
+                if !refs.is_empty() {
+                    self.feat("ref-mutation");
+                    let r = self.rng.pick(&refs).name.clone();
+                    let e = self.int_expr(sc, 2);
+                    write!(out, "let _ = ref_set({}, {}); ", r, e).unwrap();
+                }
+            }
+            5 | 6 | 7 if nest > 0 => {
+                self.feat("let-closure");
+                let n = [1, 1, 1, 0, 2][self.rng.below(5)];
+                let lit = self.closure_lit(sc, n, nest - 1);
+                let f = self.fresh("f");
+                write!(out, "let {} = {}; ", f, lit).unwrap();
+                sc.push(CV { name: f.clone(), ty: CT::F(n) });
+                if self.rng.chance(2, 3) {
+                    let c = self.call_of(&f, n, sc);
+                    self.print(&c, out);
+                }
+            }
+            8 => {
+                let e = self.int_expr(sc, 3);
+                self.print(&e, out);
+            }
+            9 => {
+                // pattern variables as captures
+                self.feat("pattern-vars");
+                let a = self.int_expr(sc, 1);
+                let b = self.int_expr(sc, 1);
+                if self.rng.chance(1, 2) {
+                    let p = self.fresh("p");
+                    let q = self.fresh("q");
+                    write!(out, "let ({}, {}) = ({}, {}); ", p, q, a, b).unwrap();
+                    sc.push(CV { name: p, ty: CT::I });
+                    sc.push(CV { name: q, ty: CT::I });
+                } else {
+                    let p = self.fresh("p");
+                    let q = self.fresh("q");
+                    let m = self.fresh("m");
+                    let mut inner = sc.clone();
+                    inner.push(CV { name: p.clone(), ty: CT::I });
+                    inner.push(CV { name: q.clone(), ty: CT::I });
+                    let mut body = String::from("{ ");
+                    self.stmts(&mut inner, nest, 2, &mut body, false);
+                    let e = self.int_expr(&inner, 2);
+                    write!(body, "{} }}", e).unwrap();
+                    let other = self.int_expr(sc, 1);
+                    write!(out, "let {} = match Pair::Two({}, {}) {{ Pair::Two({}, {}) => {}, Pair::Zero => {} }}; ", m, a, b, p, q, body, other).unwrap();
+                    sc.push(CV { name: m, ty: CT::I });
+                }
+            }
+            10 => {
+                let fs = Self::fvars(sc);
+                if !fs.is_empty() {
+                    // a closure called in a loop (the cell it shares with its creator changes between calls)
+                    self.feat("loop-call");
+                    let f = (*self.rng.pick(&fs)).clone();
+                    let CT::F(n) = f.ty else { unreachable!() };
+                    let i = self.fresh("i");
+                    let c = self.call_of(&f.name, n, sc);
+                    write!(out, "let {i} = ref(0); while ref_get({i}) < 2 {{ let _ = ref_set({i}, ref_get({i}) + 1); let _ = string_println(int32_to_string({c})); () }}; ", i = i, c = c).unwrap();
+                    sc.push(CV { name: i, ty: CT::R });
+                }
+            }
+            11 if self.on(flow::ALIAS) => {
+                let fs = Self::fvars(sc);
+                if !fs.is_empty() {
+                    self.feat("flow:alias");
+                    let f = (*self.rng.pick(&fs)).clone();
+                    let g = self.fresh("g");
+                    write!(out, "let {} = {}; ", g, f.name).unwrap();
+                    sc.push(CV { name: g, ty: f.ty });
+                }
+            }
+            12 if self.on(flow::TUPLE) => {
+                let f = self.some_f1(sc, nest, out);
+                let e = self.int_expr(sc, 1);
+                match self.rng.below(3) {
+                    0 if nest > 0 => {
+                        // a tuple holding a closure is captured by another closure and taken apart inside it
+                        self.feat("flow:tuple-captured-by-closure");
+                        let (t, g, a) = (self.fresh("t"), self.fresh("f"), self.fresh("a"));
+                        let (h, m) = (self.fresh("h"), self.fresh("n"));
+                        write!(out, "let {t} = ({f}, {e}); let {g} = |{a}: int32| {{ let ({h}, {m}) = {t}; {h}({a}) + {m} }}; ", t = t, f = f, e = e, g = g, a = a, h = h, m = m).unwrap();
+                        sc.push(CV { name: g.clone(), ty: CT::F(1) });
+                        let c = self.call_of(&g, 1, sc);
+                        self.print(&c, out);
+                    }
+                    1 if nest > 0 => {
+                        // a closure shadows the closure it captures (same source name)
+                        self.feat("closure-shadows-captured-closure");
+                        let a = self.fresh("a");
+                        let k = self.int_expr(sc, 1);
+                        write!(out, "let {f} = |{a}: int32| {f}({a}) + {k}; ", f = f, a = a, k = k).unwrap();
+                        let c = self.call_of(&f, 1, sc);
+                        self.print(&c, out);
+                    }
+                    _ => {
+                        self.feat("flow:tuple");
+                        let (h, m) = (self.fresh("h"), self.fresh("n"));
+                        write!(out, "let ({}, {}) = ({}, {}); ", h, m, f, e).unwrap();
+                        sc.push(CV { name: h.clone(), ty: CT::F(1) });
+                        sc.push(CV { name: m.clone(), ty: CT::I });
+                        self.print(&format!("{}({})", h, m), out);
+                    }
+                }
+            }
+            13 if self.on(flow::STRUCT_OWN) && top => {
+                self.feat("flow:struct-field");
+                let f = self.some_f1(sc, nest, out);
+                let s = self.fresh("Box");
+                writeln!(self.decls, "struct {} {{ f: (int32) -> int32, k: int32 }}", s).unwrap();
+                let (b, h) = (self.fresh("b"), self.fresh("h"));
+                let e = self.int_expr(sc, 1);
+                write!(out, "let {} = {} {{ f: {}, k: {} }}; let {} = {}.f; ", b, s, f, e, h, b).unwrap();
+                sc.push(CV { name: h.clone(), ty: CT::F(1) });
+                self.print(&format!("{}({}.k)", h, b), out);
+                if nest > 0 && self.rng.chance(1, 2) {
+                    // the struct holding the closure is captured by another closure
+                    self.feat("flow:struct-captured-by-closure");
+                    let (g, a, hh) = (self.fresh("f"), self.fresh("a"), self.fresh("h"));
+                    write!(out, "let {g} = |{a}: int32| {{ let {hh} = {b}.f; {hh}({a} + {b}.k) }}; ", g = g, a = a, hh = hh, b = b).unwrap();
+                    sc.push(CV { name: g.clone(), ty: CT::F(1) });
+                    let c = self.call_of(&g, 1, sc);
+                    self.print(&c, out);
+                }
+            }
+            14 if self.on(flow::TOPFN) && top && self.rng.chance(1, 3) => {
+                // closures created inside a trait method and an inherent method (context names with `#`)
+                self.feat("closure-in-method");
+                let tr = self.fresh("Scale");
+                let st = self.fresh("Acc");
+                let c = self.rng.below(5);
+                writeln!(self.decls, "trait {tr} {{ fn scale(Self, int32) -> int32; }}\nimpl {tr} for int32 {{ fn scale(self: int32, k: int32) -> int32 {{ let pr = (|x: int32| x * k + self + {c}, k); let (f, n) = pr; f(self) + f(n) }} }}\nstruct {st} {{ v: int32 }}\nimpl {st} {{ fn bump(self: {st}, d: int32) -> int32 {{ let g = |y: int32| {{ let h = |z: int32| z + self.v + y; h(d) }}; g(d) }} }}", tr = tr, st = st, c = c).unwrap();
+                let e = self.int_expr(sc, 1);
+                let e2 = self.int_expr(sc, 1);
+                self.print(&format!("{}::scale({}, {})", tr, e, e2), out);
+                let e3 = self.int_expr(sc, 1);
+                let a = self.fresh("acc");
+                write!(out, "let {} = {} {{ v: {} }}; ", a, st, e3).unwrap();
+                self.print(&format!("{}.bump({})", a, e), out);
+            }
+            14 if self.on(flow::TOPFN) => {
+                self.feat("flow:top-level-fn-value");
+                let t = self.fresh("top");
+                let c = self.rng.below(5);
+                writeln!(self.before, "fn {}(x: int32) -> int32 {{ x * 3 + {} }}", t, c).unwrap();
+                let h = self.fresh("h");
+                write!(out, "let {} = {}; ", h, t).unwrap();
+                sc.push(CV { name: h, ty: CT::F(1) });
+            }
+            15 if top && self.on(flow::RETURN_EARLIER) => self.returned_flow(false, sc, nest, out),
+            _ => {
+                let e = self.int_expr(sc, 2);
+                self.print(&e, out);
+            }
+        }
+    }
+
+    /// a function that returns a closure sharing a Ref cell with its caller; `later`: declared after `main`
+    fn returned_flow(&mut self, later: bool, sc: &mut Vec<CV>, nest: usize, out: &mut String) {
+        self.feat(if later { "flow:returned(callee-declared-later)" } else { "flow:returned" });
+        let mk = self.fresh("mk");
+        // the maker captures its own parameters and lets
+        let mut inner = vec![CV { name: "k".into(), ty: CT::I }, CV { name: "cell".into(), ty: CT::R }];
+        let mut body = String::new();
+        self.stmts(&mut inner, nest.min(2), 2, &mut body, false);
+        let lit = self.closure_lit(&inner, 1, nest.min(2).saturating_sub(1));
+        let text = format!("fn {}(k: int32, cell: Ref[int32]) -> (int32) -> int32 {{ {}{} }}\n", mk, body, lit);
+        if later { self.after.push_str(&text) } else { self.before.push_str(&text) }
+        let refs = Self::vars(sc, &CT::R);
+        let r = if refs.is_empty() {
+            let r = self.fresh("r");
+            write!(out, "let {} = ref(1); ", r).unwrap();
+            sc.push(CV { name: r.clone(), ty: CT::R });
+            r
+        } else {
+            self.rng.pick(&refs).name.clone()
+        };
+        let e = self.int_expr(sc, 1);
+        let h = self.fresh("h");
+        write!(out, "let {} = {}({}, {}); ", h, mk, e, r).unwrap();
+        sc.push(CV { name: h.clone(), ty: CT::F(1) });
+        let c = self.call_of(&h, 1, sc);
+        self.print(&c, out);
+        write!(out, "let _ = ref_set({}, ref_get({}) + 1); ", r, r).unwrap();
+        let c = self.call_of(&h, 1, sc);
+        self.print(&c, out);
+    }
+
+    /// one use of a flow outside the rewriting; each leaves a call whose result is printed
+    fn other_flow(&mut self, f: u32, sc: &mut Vec<CV>, nest: usize, out: &mut String) {
+        let e1 = self.int_expr(sc, 1);
+        match f {
+            flow::ARGUMENT => {
+                let ap = self.fresh("apply");
+                writeln!(self.before, "fn {}(f: (int32) -> int32, x: int32) -> int32 {{ f(f(x)) + 1 }}", ap).unwrap();
+                if self.rng.chance(1, 2) {
+                    let g = self.some_f1(sc, nest, out);
+                    self.print(&format!("{}({}, {})", ap, g, e1), out);
+                } else {
+                    let lit = self.closure_lit(sc, 1, nest.min(1));
+                    self.print(&format!("{}({}, {})", ap, lit, e1), out);
+                }
+            }
+            flow::BRANCH_IF | flow::BRANCH_MATCH | flow::MIXED_TOP => {
+                let a = self.some_f1(sc, nest, out);
+                let b = if f == flow::MIXED_TOP {
+                    let t = self.fresh("top");
+                    writeln!(self.before, "fn {}(x: int32) -> int32 {{ x + 100 }}", t).unwrap();
+                    t
+                } else {
+                    let g = self.fresh("f");
+                    let lit = self.closure_lit(sc, 1, nest.min(1));
+                    write!(out, "let {} = {}; ", g, lit).unwrap();
+                    sc.push(CV { name: g.clone(), ty: CT::F(1) });
+                    g
+                };
+                let h = self.fresh("h");
+                let c = self.int_expr(sc, 1);
+                if f == flow::BRANCH_MATCH {
+                    write!(out, "let {} = match {} {{ 0 => {}, _ => {} }}; ", h, c, a, b).unwrap();
+                } else {
+                    write!(out, "let {} = if {} < 5 {{ {} }} else {{ {} }}; ", h, c, a, b).unwrap();
+                }
+                sc.push(CV { name: h.clone(), ty: CT::F(1) });
+                self.print(&format!("{}({})", h, e1), out);
+            }
+            flow::ARRAY => {
+                let a = self.some_f1(sc, nest, out);
+                let g = self.fresh("f");
+                let lit = self.closure_lit(sc, 1, nest.min(1));
+                write!(out, "let {} = {}; ", g, lit).unwrap();
+                let (arr, h) = (self.fresh("arr"), self.fresh("h"));
+                write!(out, "let {} = [{}, {}]; let {} = array_get({}, {}); ", arr, a, g, h, arr, self.rng.below(2)).unwrap();
+                sc.push(CV { name: h.clone(), ty: CT::F(1) });
+                self.print(&format!("{}({})", h, e1), out);
+            }
+            flow::STRUCT_SHARED => {
+                let s = self.fresh("Shared");
+                writeln!(self.decls, "struct {} {{ f: (int32) -> int32 }}", s).unwrap();
+                let a = self.some_f1(sc, nest, out);
+                let g = self.fresh("f");
+                let lit = self.closure_lit(sc, 1, nest.min(1));
+                write!(out, "let {} = {}; ", g, lit).unwrap();
+                let (b1, b2, h) = (self.fresh("b"), self.fresh("b"), self.fresh("h"));
+                write!(out, "let {} = {} {{ f: {} }}; let {} = {} {{ f: {} }}; let {} = {}.f; ", b1, s, a, b2, s, g, h, b1).unwrap();
+                let _ = b2;
+                sc.push(CV { name: h.clone(), ty: CT::F(1) });
+                self.print(&format!("{}({})", h, e1), out);
+            }
+            flow::CURRIED => {
+                let add = self.fresh("add");
+                let (a, b) = (self.fresh("a"), self.fresh("b"));
+                let mut inner = sc.clone();
+                inner.push(CV { name: a.clone(), ty: CT::I });
+                inner.push(CV { name: b.clone(), ty: CT::I });
+                let body = self.int_expr(&inner, 2);
+                let h = self.fresh("h");
+                write!(out, "let {} = |{}: int32| |{}: int32| {}; let {} = {}({}); ", add, a, b, body, h, add, e1).unwrap();
+                sc.push(CV { name: h.clone(), ty: CT::F(1) });
+                let c = self.call_of(&h, 1, sc);
+                self.print(&c, out);
+            }
+            flow::REFCELL => {
+                let a = self.some_f1(sc, nest, out);
+                let (r, h) = (self.fresh("rc"), self.fresh("h"));
+                write!(out, "let {} = ref({}); let {} = ref_get({}); ", r, a, h, r).unwrap();
+                sc.push(CV { name: h.clone(), ty: CT::F(1) });
+                self.print(&format!("{}({})", h, e1), out);
+            }
+            flow::CLOSURE_PARAM => {
+                let a = self.some_f1(sc, nest, out);
+                let ap = self.fresh("ap");
+                let (h, x) = (self.fresh("h"), self.fresh("a"));
+                write!(out, "let {} = |{}: (int32) -> int32, {}: int32| {}({}) + 1; ", ap, h, x, h, x).unwrap();
+                self.print(&format!("{}({}, {})", ap, a, e1), out);
+            }
+            flow::RETURN_BRANCH => {
+                let mk = self.fresh("choose");
+                writeln!(self.before, "fn {}(c: bool, k: int32) -> (int32) -> int32 {{ if c {{ |x: int32| x + k }} else {{ |y: int32| y * k }} }}", mk).unwrap();
+                let h = self.fresh("h");
+                write!(out, "let {} = {}({} < 5, {}); ", h, mk, e1, self.rng.below(7)).unwrap();
+                sc.push(CV { name: h.clone(), ty: CT::F(1) });
+                let c = self.call_of(&h, 1, sc);
+                self.print(&c, out);
+            }
+            flow::RETURN_LATER => self.returned_flow(true, sc, nest, out),
+            flow::GO_STMT => {
+                let refs = Self::vars(sc, &CT::R);
+                let e = if refs.is_empty() { e1 } else { format!("ref_get({})", self.rng.pick(&refs).name) };
+                write!(out, "go || {{ string_println(int32_to_string({})) }}; ", e).unwrap();
+            }
+            _ => {}
+        }
+    }
+
+    pub fn program(&mut self) -> String {
+        self.decls.push_str("enum Pair { Zero, Two(int32, int32) }\n");
+        let mut body = String::new();
+        let mut sc: Vec<CV> = Vec::new();
+        // a shared cell and a plain value every closure may capture
+        body.push_str("let base = 7; let cell0 = ref(1); ");
+        sc.push(CV { name: "base".into(), ty: CT::I });
+        sc.push(CV { name: "cell0".into(), ty: CT::R });
+        let nest = self.cfg.nest;
+        let n = 3 + self.rng.below(4);
+        self.stmts(&mut sc, nest, n, &mut body, true);
+        if self.on(flow::TUPLE_RETURN) && self.rng.chance(1, 2) {
+            self.feat("flow:tuple-of-closures-returned");
+            let mk = self.fresh("mkpair");
+            writeln!(
+                self.before,
+                "fn {}(start: int32) -> (() -> int32, (int32) -> unit) {{ let c = ref(start); let next = || {{ let v = ref_get(c) + 1; let _ = ref_set(c, v); v }}; let put = |v: int32| {{ let _ = ref_set(c, v); () }}; (next, put) }}",
+                mk
+            )
+            .unwrap();
+            let (nx, pt) = (self.fresh("next"), self.fresh("put"));
+            let e = self.int_expr(&sc, 1);
+            write!(body, "let ({}, {}) = {}({}); ", nx, pt, mk, e).unwrap();
+            self.print(&format!("{}()", nx), &mut body);
+            write!(body, "let _ = {}(40); ", pt).unwrap();
+            self.print(&format!("{}()", nx), &mut body);
+            sc.push(CV { name: nx, ty: CT::F(0) });
+        }
+        for (f, name) in flow::OTHER {
+            if self.on(f) {
+                *self.feats.entry(match name {
+                    "argument" => "flow:argument",
+                    "branch-if" => "flow:branch-if",
+                    "branch-match" => "flow:branch-match",
+                    "array" => "flow:array",
+                    "return-later" => "flow:return-later",
+                    "struct-shared" => "flow:struct-shared",
+                    "curried" => "flow:curried",
+                    "refcell" => "flow:refcell",
+                    "closure-param" => "flow:closure-param",
+                    "mixed-top" => "flow:mixed-top",
+                    "return-branch" => "flow:return-branch",
+                    _ => "flow:go",
+                })
+                .or_default() += 1;
+                self.other_flow(f, &mut sc, nest, &mut body);
+            }
+        }
+        let k = 1 + self.rng.below(3);
+        self.stmts(&mut sc, nest, k, &mut body, true);
+        // every function value still in scope is called once more at the end
+        let fs: Vec<CV> = Self::fvars(&sc).into_iter().cloned().collect();
+        for f in fs {
+            let CT::F(n) = f.ty else { continue };
+            let c = self.call_of(&f.name, n, &sc);
+            self.print(&c, &mut body);
+        }
+        format!("{}{}fn main() {{ {}() }}\n{}", self.decls, self.before, body, self.after)
+    }
+}
+
+pub fn gen_closure_program(rng: &mut Rng, cfg: CloCfg) -> (String, BTreeMap<&'static str, usize>) {
+    let mut g = CloGen { rng, cfg, uid: 0, before: String::new(), after: String::new(), decls: String::new(), feats: BTreeMap::new() };
+    let src = g.program();
+    (src, g.feats)
+}
